@@ -156,6 +156,7 @@ func (fx *FnCtx) instr(in ssa.Instruction) {
 		}
 		ref := fx.define(x, st.next)
 		st.next = app("Int", "+", st.next, Term{allocStep, "Int"})
+		fx.assume(eq(app("Int", "iaoff", ref), Term{"0", "Int"}))
 		// zero-initialised (cells beyond the allocation frontier are zero)
 		l := &Loc{kind: locPtr, base: ref, rootT: t}
 		fx.assume(eq(st.read(P, l), P.sorts.zero(t)))
